@@ -66,6 +66,11 @@ impl Controller for StaticResourceController {
                     return false
                 }
 
+                let boxed_index_md = metadata(&index_html_in_directory);
+                if boxed_index_md.is_err() || !boxed_index_md.unwrap().is_file() {
+                    return false
+                }
+
                 is_directory_with_index_html = true;
             }
         }
@@ -97,8 +102,10 @@ impl Controller for StaticResourceController {
 
             let static_filepath = boxed_static_filepath.unwrap();
             let boxed_file = File::open(&static_filepath);
+            let boxed_html_md = metadata(&static_filepath);
+            let is_regular_file = boxed_html_md.is_ok() && boxed_html_md.unwrap().is_file();
 
-            boxed_file.is_ok() && is_matching_method
+            boxed_file.is_ok() && is_regular_file && is_matching_method
         }
 
     }
